@@ -7,7 +7,7 @@ export GOFLAGS=-mod=mod GOPROXY=off GOSUMDB=off GOTOOLCHAIN=local; unset GOWORK
 SRC=$1; J=${2:-6}
 CLAIMED=$(python3 -c "import json;print(' '.join(c['property_id'] for c in json.load(open('/verif/MANIFEST.json'))['checks']))")
 one() {
-  d=$1; n=$(basename $(dirname $d))-$(basename $d)
+  d=$1; n=$(echo ${d#$SRC/} | tr '/' '-')
   W=$(mktemp -d /tmp/refrun.XXXXXX)
   git -C /repo worktree add -q --detach $W/wt HEAD 2>/dev/null
   if ! git -C $W/wt apply $d/patch.diff 2>/dev/null && ! git -C $W/wt apply --3way $d/patch.diff 2>/dev/null; then
@@ -27,4 +27,5 @@ one() {
   git -C /repo worktree remove --force $W/wt; rm -rf $W
 }
 export -f one; export CLAIMED
-ls -d $SRC/*/r*/ | sed 's:/$::' | xargs -P $J -I{} bash -c 'one {}'
+export SRC
+find $SRC -name patch.diff | sort | xargs -n1 dirname | xargs -P $J -I{} bash -c 'one {}'
